@@ -176,6 +176,7 @@ struct World
     std::vector<std::vector<double>> starts, goals;
     std::shared_ptr<ob::InformedSampler> smp;
     std::shared_ptr<ob::PathLengthDirectInfSampler> direct;   // when smp (or the wrapped one) is direct
+    std::shared_ptr<ob::OrderedInfSampler> ord;               // OrderedInfSampler never frees its queue: the harness does
     std::string skind;
     std::vector<ompl::ProlateHyperspheroid *> phsIds;         // initial order of listPhsPtrs_
     ob::State *st = nullptr;
@@ -423,6 +424,14 @@ int main()
             else if (op == "space" && t.size() >= 2)
             {
                 size_t i = 2;
+                if (w.ord)
+                    w.ord->clearBatch();
+                w.ord.reset();
+                if (w.st)
+                {
+                    w.space->freeState(w.st);
+                    w.st = nullptr;
+                }
                 w.kind = t[1];
                 if (w.kind == "rv")
                 {
@@ -531,6 +540,9 @@ int main()
                 gs->setThreshold(thr);
                 w.pdef->setGoal(gs);
                 w.pdef->setOptimizationObjective(std::make_shared<ob::PathLengthOptimizationObjective>(w.si));
+                if (w.ord)
+                    w.ord->clearBatch();
+                w.ord.reset();
                 w.direct.reset();
                 w.phsIds.clear();
                 g_script.on = false;
@@ -543,12 +555,12 @@ int main()
                     if (w.skind == "direct")
                         w.smp = w.direct;
                     else
-                        w.smp = std::make_shared<ob::OrderedInfSampler>(w.direct, batch);
+                        w.smp = w.ord = std::make_shared<ob::OrderedInfSampler>(w.direct, batch);
                 }
                 else if (w.skind == "rej")
                     w.smp = std::make_shared<ob::RejectionInfSampler>(w.pdef, numIters);
                 else if (w.skind == "ord-rej")
-                    w.smp = std::make_shared<ob::OrderedInfSampler>(
+                    w.smp = w.ord = std::make_shared<ob::OrderedInfSampler>(
                         std::make_shared<ob::RejectionInfSampler>(w.pdef, numIters), batch);
                 else
                 {
@@ -753,6 +765,8 @@ int main()
             std::cout << "exception " << e.what() << "\n";
         }
     }
+    if (w.ord)
+        w.ord->clearBatch();
     if (w.st)
         w.space->freeState(w.st);
     return 0;
